@@ -103,7 +103,7 @@ Proof.
     destruct (e_kind (eattrs c)) eqn:Ekc; try discriminate; [|reflexivity].
     exact (proj2 (Hc0 _ _ _ _ _ eq_refl Hs1 Hx)).
 Qed.
-Lemma container_kind e k : e_kind (eattrs e) = k -> match k with KBr | KText => False | _ => True end -> container e = true.
+Lemma container_kind e k : e_kind (eattrs e) = k -> match k with KBr | KText | KRt | KRtc | KRp => False | _ => True end -> container e = true.
 Proof. intros <- H. unfold container. destruct (e_kind (eattrs e)); try reflexivity; contradiction. Qed.
 
 Lemma proc_body d t sel b inh par pb pe r :
